@@ -24,6 +24,24 @@ theorem keeps_of_Q {α : Type} {s s' : St} {r : Res α} (h : Q s r) (hs : finalS
     cases e <;> first | exact h.1 | exact h
   | oof => simp [finalState] at hs
 
+/-! ### a concrete instance for the non-vacuity examples below -/
+
+def tk (t : Tag) (s : Bytes) : Token := ⟨t, 0, s⟩
+def identE (name : Bytes) : Expr := .ident (tk .ident name)
+/-- `function f(x) { y = x; return x }` -/
+def exProg : Program :=
+  ⟨[], [⟨tk .ident b!"f", [b!"x"],
+    .block (tk .lcurly b!"{") [.expr (.binary (identE b!"y") (identE b!"x") (tk .equal b!"=")),
+                               .ret (some (identE b!"x"))]⟩]⟩
+/-- a root frame in which `f` names the function (cell 2); cell 1 holds the number 1 -/
+def exSt : St :=
+  { heap := ⟨#[.obj 0, .num F64.one, .fn 0], #[], #[[]]⟩, frames := [⟨b!"<root>", [(b!"f", 2)]⟩],
+    out := [], root := some 0, ruleRoot := some 0, returnVal := none, faults := 0 }
+/-- `f(1)` -/
+def exCall : Expr := .call (identE b!"f") [.lit (tk .num b!"1")]
+/-- `match`-cases `z => z` (an identifier pattern, which binds `z` in a `<match>` frame) -/
+def exCases : List MatchCase := [.mk [identE b!"z"] (.expr (identE b!"z"))]
+
 variable (prog : Program)
 
 /-- However an expression evaluation ends — value, runtime error, next/exit/break/continue/
@@ -33,21 +51,39 @@ theorem frames_restored_expr (n : Nat) (e : Expr) (s s' : St)
     (h : finalState (evalExpr prog n e s) = some s') : FramesKeep s.frames s'.frames :=
   (keeps_of_Q ((allSafe prog n).expr e s) h).frames
 
+/-- non-vacuity: `f(1)` runs to a value (fuel 12), through a call that pushes and drops a frame -/
+example : ∃ s', finalState (evalExpr exProg 12 exCall exSt) = some s' := Option.isSome_iff_exists.mp (by decide +kernel)
+example : (match evalExpr exProg 12 exCall exSt with
+    | .ok c s' => s'.heap.get c == .num F64.one | _ => false) = true := by decide +kernel
+
 /-- the same for statements -/
 theorem frames_restored_stmt (n : Nat) (st : Stmt) (s s' : St)
     (h : finalState (evalStmt prog n st s) = some s') : FramesKeep s.frames s'.frames :=
   (keeps_of_Q ((allSafe prog n).stmt st s) h).frames
+
+example : ∃ s', finalState (evalStmt exProg 13 (.expr exCall) exSt) = some s' :=
+  Option.isSome_iff_exists.mp (by decide +kernel)
 
 /-- … and for a call of any callable value with already evaluated arguments -/
 theorem frames_restored_call (n pos : Nat) (f : CellId) (args : List CellId) (s s' : St)
     (h : finalState (callFunction prog n pos f args s) = some s') : FramesKeep s.frames s'.frames :=
   (keeps_of_Q ((allSafe prog n).call pos f args s) h).frames
 
+example : ∃ s', finalState (callFunction exProg 10 0 2 [1] exSt) = some s' :=
+  Option.isSome_iff_exists.mp (by decide +kernel)
+
 /-- … and for a whole `match` (subject already evaluated) -/
 theorem frames_restored_match (n pos : Nat) (v : CellId) (cases : List MatchCase) (s s' : St)
     (h : finalState (evalMatchCases prog n pos v cases s) = some s') :
     FramesKeep s.frames s'.frames :=
   (keeps_of_Q ((allSafe prog n).matchCases pos v cases s) h).frames
+
+/-- the case `z => z` matches the subject (cell 1), binds `z` and yields the subject's cell -/
+example : ∃ s', finalState (evalMatchCases exProg 6 0 1 exCases exSt) = some s' :=
+  Option.isSome_iff_exists.mp (by decide +kernel)
+example : (match evalMatchCases exProg 6 0 1 exCases exSt with
+    | .ok c s' => s'.heap.get c == .num F64.one && s'.frames.length == 1 | _ => false) = true := by
+  decide +kernel
 
 /-- only genuinely nested calls count towards the recursion limit: the depth after any
     completed statement equals the depth before it, whatever ran inside -/
@@ -77,6 +113,19 @@ theorem call_restores_exactly (n pos i : Nat) (fc : CellId) (args : List CellId)
       withFrames] at h
     split at h <;> simp only [finalState, Option.some.injEq, reduceCtorEq] at h <;> (subst h; rfl)
 
+/-- non-vacuity of `call_restores_exactly` / `locals_vanish`: cell 2 is the user function `f`, the
+    call completes, and the callee's `x` and `y` (created inside the call) are not visible after it -/
+example : exSt.heap.get 2 = .fn 0 ∧ exProg.functions[0]? = some
+      ⟨tk .ident b!"f", [b!"x"],
+       .block (tk .lcurly b!"{") [.expr (.binary (identE b!"y") (identE b!"x") (tk .equal b!"=")),
+                                  .ret (some (identE b!"x"))]⟩ ∧
+    ∃ s', finalState (callFunction exProg (9 + 1) 0 2 [1] exSt) = some s' :=
+  ⟨by decide +kernel, rfl, Option.isSome_iff_exists.mp (by decide +kernel)⟩
+example : (match callFunction exProg 10 0 2 [1] exSt with
+    | .ok _ s' => lookupFrames s'.frames b!"x" == none && lookupFrames s'.frames b!"y" == none &&
+                  lookupFrames s'.frames b!"f" == some 2
+    | _ => false) = true := by decide +kernel
+
 /-- hence names bound by the callee are not visible afterwards: lookups see what they saw before -/
 theorem locals_vanish (n pos i : Nat) (fc : CellId) (args : List CellId) (f : FuncDef)
     (s s' : St) (hfn : s.heap.get fc = .fn i) (hf : prog.functions[i]? = some f)
@@ -84,7 +133,8 @@ theorem locals_vanish (n pos i : Nat) (fc : CellId) (args : List CellId) (f : Fu
     lookupFrames s'.frames name = lookupFrames s.frames name := by
   rw [call_restores_exactly prog n pos i fc args f s s' hfn hf h]
 
-/-- `root` and `$` (`ruleRoot`) are never changed by evaluating statements -/
+/-- evaluating a statement never re-points `root` or `$` (`ruleRoot`): both still name the same
+    heap cell afterwards (the CONTENTS of that cell may change, e.g. by `$ = …`) -/
 theorem rule_root_untouched (n : Nat) (st : Stmt) (s s' : St)
     (h : finalState (evalStmt prog n st s) = some s') :
     s'.ruleRoot = s.ruleRoot ∧ s'.root = s.root :=
@@ -101,7 +151,8 @@ theorem objLookup_objInsert_same (m : List (Bytes × CellId)) (k : Bytes) (c : C
     · simp [objInsert, objLookup, h]
     · simp [objInsert, objLookup, h, ih]
 
-/-- binding by position: a parameter without an argument is bound to a fresh null cell -/
+/-- binding, stated for a ONE-parameter list only: a parameter without an argument is bound to a
+    fresh null cell (parameter lists of any length: `C09.params_bound_fresh`) -/
 theorem bind_missing_null (p : Bytes) (s : St) (f : Frame) (fs : List Frame) (hfr : s.frames = f :: fs) :
     ∃ s', bindParams [p] [] s = .ok () s' ∧
       ∃ c, lookupFrames s'.frames p = some c ∧ s'.heap.get c = .nil none := by
@@ -110,8 +161,12 @@ theorem bind_missing_null (p : Bytes) (s : St) (f : Frame) (fs : List Frame) (hf
   · simp [lookupFrames, objLookup_objInsert_same, Heap.alloc]
   · simp [Heap.alloc, Heap.get]
 
-/-- … and a parameter with an argument to a fresh cell holding (a copy of) that value;
-    surplus arguments are ignored -/
+/-- non-vacuity of `hfr` (here and in `bind_arg_value`): the example state has a frame -/
+example : exSt.frames = ⟨b!"<root>", [(b!"f", 2)]⟩ :: [] := rfl
+
+/-- … and (again for a one-parameter list) a parameter with an argument is bound to a fresh cell
+    holding that value (for an array/object value: the same reference); surplus arguments are
+    ignored -/
 theorem bind_arg_value (p : Bytes) (a : Val) (extra : List Val) (s : St) (f : Frame) (fs : List Frame)
     (hfr : s.frames = f :: fs) :
     ∃ s', bindParams [p] (a :: extra) s = .ok () s' ∧
